@@ -70,10 +70,11 @@ type IX interface{ NotImplementedByAnyone() }
 const (
 	formAsBadLast  = -1 // As[I0], As[IX]
 	formAsBadFirst = -2 // As[IX], As[I0]
+	formInitNamed  = -3 // a scoped function without service result, Name("k1"): identity (struct{}, "k1")
 )
 
 // pool of identities the queries range over
-var poolTypes = []int{0, 1, kit.NS + 0, kit.TI0}
+var poolTypes = []int{0, 1, kit.NS + 0, kit.TI0, kit.TVoid}
 
 func identsOfForm(slot, form int) []kit.Ident {
 	w := &kit.World{N: kit.NS}
@@ -93,6 +94,8 @@ func descIdent(d *godi.Descriptor) (kit.Ident, bool) {
 		id.Type = kit.TI0
 	case d.Type == kit.TypeI1:
 		id.Type = kit.TI1
+	case d.Type == kit.TypeVoid:
+		id.Type = kit.TVoid
 	default:
 		ok := false
 		for r := 0; r < kit.NS; r++ {
@@ -147,6 +150,9 @@ func queryAll(c godi.Collection, m *registry, step int) {
 // probe: what a provider answers for every pool identity
 func probe(p godi.Provider, m *registry, what string) {
 	for _, t := range poolTypes {
+		if t == kit.TVoid {
+			continue // initializers are not resolvable; their runs are counted instead
+		}
 		for _, key := range []string{"", "k1"} {
 			id := kit.Ident{Type: t, Key: key}
 			var err error
@@ -190,7 +196,7 @@ func H_Registry() {
 		w.Regs[slot] = kit.Reg{Present: true, Life: life, Form: form, Variant: 0}
 		return w.Add(c, slot), w.Identities(slot)
 	}
-	forms := []int{kit.IdPlain, kit.IdNamed, kit.IdGroup, kit.IdAs, kit.IdMulti, kit.IdResObj2, kit.IdResObjGroup2, formAsBadLast, formAsBadFirst}
+	forms := []int{kit.IdPlain, kit.IdNamed, kit.IdGroup, kit.IdAs, kit.IdMulti, kit.IdResObj2, kit.IdResObjGroup2, formAsBadLast, formAsBadFirst, formInitNamed}
 	for s := 1; s <= L; s++ {
 		sfx := string(rune('0' + s))
 		lo, hi := 0, 4
@@ -209,6 +215,23 @@ func H_Registry() {
 			slot := vrt.Pick("slot"+sfx, 0, 1)
 			life := vrt.Pick("life"+sfx, 0, 2)
 			form := forms[vrt.Pick("form"+sfx, 0, len(forms)-1)]
+			if form == formInitNamed {
+				id := kit.Ident{Type: kit.TVoid, Key: "k1"}
+				collide := m.has(id)
+				var err error
+				if op == 0 {
+					err = c.AddScoped(kit.TabV[slot][0], godi.Name("k1"))
+				} else {
+					err = c.AddModules(godi.NewModule("m", godi.AddScoped(kit.TabV[slot][0], godi.Name("k1"))))
+				}
+				vrt.Cover("initializer_add")
+				vrt.Assert((err != nil) == collide, "C17.duplicate_rule", "step", s, "Add of a named initializer returned", err, "but identity collision =", collide)
+				if err == nil && !collide {
+					tag++
+					m.entries = append(m.entries, regEntry{id: id, tag: tag, slot: slot, life: kit.LScoped})
+				}
+				break
+			}
 			if form < 0 {
 				// rejected for a reason other than a collision: nothing of it may stay
 				opts := []godi.AddOption{godi.As[kit.I0](), godi.As[IX]()}
@@ -308,11 +331,33 @@ func H_Registry() {
 			}
 			ran := 0
 			for k := range kit.Calls {
-				ran += kit.Calls[k][slot]
+				if k != kit.KindVoid && k != kit.KindVoidErr { // initializers are accounted for below
+					ran += kit.Calls[k][slot]
+				}
 			}
 			if !inReg {
 				vrt.Assert(ran == 0, "C17.removed_constructor_ran", "constructor of slot", slot, "ran", ran, "times at Build although no singleton registration of it remains")
 			}
+		}
+		// a scoped initializer that is in the registry runs once for the root scope
+		// at Build and once per scope; one that was removed never runs
+		atBuild := [2]int{kit.Calls[kit.KindVoid][0], kit.Calls[kit.KindVoid][1]}
+		if sc, e := p.CreateScope(nil); e == nil {
+			for slot := 0; slot < 2; slot++ {
+				inReg := false
+				for _, e := range m.entries {
+					if e.id.Type == kit.TVoid && e.slot == slot {
+						inReg = true
+					}
+				}
+				perScope := kit.Calls[kit.KindVoid][slot] - atBuild[slot]
+				if inReg {
+					vrt.Assert(atBuild[slot] == 1 && perScope == 1, "C17.initializer_runs", "registered initializer of slot", slot, "ran", atBuild[slot], "times at Build and", perScope, "times at scope creation")
+				} else {
+					vrt.Assert(atBuild[slot] == 0 && perScope == 0, "C17.removed_constructor_ran", "initializer of slot", slot, "is not in the registry but ran", atBuild[slot], "times at Build and", perScope, "times at scope creation")
+				}
+			}
+			sc.Close()
 		}
 		probe(p, m, "final Build:")
 		p.Close()
